@@ -118,6 +118,13 @@ def replay_case(ctx, sc, k):
         ctx.mismatch('C07:verify:%s:%s:model-%s-got-%s' % (cname, tname, verdict, got),
                      'Key.verify: model %s, pytezos %s (%s)\n%s' % (verdict, got, o[1:], desc), case)
         ok = False
+    # the API takes key and signature as text or as the bytes of that text (Union[str, bytes]): the verdict is about what they denote
+    o2 = memo(vcurve, ('verify-bytes', vpk, vsig, vm_in), lambda: kf.outcome(lambda: __import__('pytezos.crypto.key', fromlist=['Key']).Key.from_encoded_key(vpk.encode()).verify(vsig.encode(), vm_in)))
+    got2 = 'accept' if (o2[0] == 'ret' and o2[1] is True) else 'reject'
+    if got2 != verdict:
+        ctx.mismatch('C07:verify:%s:%s:given-as-bytes:model-%s-got-%s' % (cname, tname, verdict, got2),
+                     'Key.verify with the key and the signature handed over as bytes: model %s, pytezos %s (%s)\n%s' % (verdict, got2, o2[1:], desc), case)
+        ok = False
     # ---- CHECK_SIGNATURE ----
     c, txt = memo(vcurve, ('check', vpk, vsig, vmsg), lambda: kf.check_signature(vpk, vsig, vmsg))
     if tk == 'offcurve' and c.startswith('raises-'):
